@@ -15,6 +15,7 @@ import (
 	"strconv"
 	"strings"
 	"sync"
+	"syscall"
 	"time"
 )
 
@@ -420,6 +421,8 @@ func RunProperty(p *Property, o RunOpts) int {
 				wdir := filepath.Join(scratch, fmt.Sprintf("w%d", wk))
 				os.MkdirAll(wdir, 0o755)
 				cmd := exec.Command(exe, "child", casesFile, strconv.Itoa(wk), strconv.Itoa(workers), outFile, strings.Join(skipList, ","))
+				// own session: whatever the code under test signals, it cannot reach the parent
+				cmd.SysProcAttr = &syscall.SysProcAttr{Setsid: true}
 				cmd.Env = append(os.Environ(), "PCVERIF_SCRATCH="+wdir, "GORACE=halt_on_error=0 log_path="+filepath.Join(scratch, fmt.Sprintf("race.%d", wk)))
 				errFile := filepath.Join(scratch, fmt.Sprintf("err.%d.%d", wk, attempt))
 				ef, _ := os.Create(errFile)
